@@ -23,7 +23,7 @@ func (vc *VC) execInstr(ins ssa.Instruction) {
 	R := vc.R[vc.cur]
 	switch x := ins.(type) {
 	case *ssa.DebugRef:
-		// nothing
+		vc.assertsAfter(x)
 	case *ssa.Alloc:
 		vc.vals[x] = vc.alloc(x.Type().(*types.Pointer).Elem(), x.Type(), x.Comment)
 	case *ssa.UnOp:
